@@ -65,10 +65,17 @@ def run(tier, replay_path=None):
             if drift <= 3: V.note("DRIFT: C15 renderings differ from the Stmt.tla model for %s" % json.dumps(r["calls"])[:300])
     if badrefs:
         raise ToolError("C15: %d reference histories are not what the model's clear operation means (generator error)" % badrefs)
+    # take() of the schema statement builders (TableCreate/Alter/Rename/Drop/Truncate, IndexCreate, ForeignKeyCreate)
+    schema_n = 0
+    if not replay_path:
+        import schemapipe
+        sf, sst = schemapipe.collect_schema("C15", tier, None, ["C15/"], os.path.join(wd, "schema"), rng, quick_cap=700)
+        for k, rec in sf: V.fail(k, rec)
+        schema_n = sst["evals"]
     cov = {"states": max(states, 1), "transitions": max(gen, 1), "traces_validated_against_impl": len(verdicts),
            "evaluations": sum(len(r["steps"]) for r in recs), "distinct_nontrivial": nontriv,
            "rule": "histories = TLC state space of the two-register SelectStatement machine (Take.tla): every sequence of <= 3 steps over one representative call per field (19 calls covering all 16 fields incl. index hints), the same calls on the second register, take, clone and the five clear / reset operations; + random histories setting 6..19 fields with take / clone / clear inserted at random positions; per step the real ==, the renderings of both registers on 3 backends, and for clear operations the statement rebuilt without that clause; non-trivial = history contains take, clone or a clear operation",
            "samples": [{"calls": r["calls"]} for r in recs[:: max(1, len(recs) // 3)][:3]],
-           "impl_model_exact": drift == 0, "drift": drift}
-    return std_finish(pid, tier, t0, V, cov, ["SelectStatement (the statement type with take(), Clone and clear_* / reset_*) is replayed; take() of WindowStatement and of the schema statements is covered by the schema checks (C13/C14) when built",
+           "schema_statements_taken": schema_n, "impl_model_exact": drift == 0, "drift": drift}
+    return std_finish(pid, tier, t0, V, cov, ["SelectStatement is replayed call by call; for the schema statement builders take() is checked on every statement of the C13/C14 declaration space (Debug text and renderings of the taken statement equal those before)",
                                              "equality of statements is the crate's own PartialEq"])
